@@ -63,7 +63,8 @@ Resources == DOMAIN cfg.pools
 
 PrioOf(kind) == CASE kind = "finish" -> 80 [] kind = "pass" -> 70 [] kind = "release" -> 60
                   [] kind = "fail" -> 50 [] kind = "check" -> 110 [] kind = "term" -> 10
-                  [] kind = "restore" -> 90 [] kind = "mstart" -> 30 [] kind = "mfinish" -> 100 [] OTHER -> 20
+                  [] kind = "restore" -> 90 [] kind = "mstart" -> 30 [] kind = "mfinish" -> 100
+                  [] kind = "psense" -> 40 [] OTHER -> 20
 
 (***************************************************************************)
 (* Initial state                                                           *)
@@ -72,7 +73,9 @@ Dev0(d) == [inp |-> 0, out |-> 0, wds |-> FALSE, wsince |-> None, off |-> 0, blo
             down |-> FALSE, held |-> FALSE, wres |-> FALSE, up |-> 0, ut |-> 0,
             buf |-> <<>>, level |-> 0, inprog |-> <<>>, ipb |-> 0,
             supplied |-> 0, budget |-> cfg.devs[d].budget, cost |-> 0,
-            count |-> 0, collected |-> <<>>, revenue |-> 0, value |-> 0, nvh |-> 0]
+            count |-> 0, collected |-> <<>>, revenue |-> 0, value |-> 0, nvh |-> 0,
+            \* wear of the machine and the kept series of its sensors (output-part sensor s*, periodic sensor p*)
+            damage |-> 0, sdata |-> <<>>, sn |-> 0, pdata |-> <<>>, ptime |-> <<>>, pn |-> 0]
 
 (* downstream lists in connection order: devices are connected when they are created (id order), *)
 (* except those wired late (an upstream with a larger id), which are connected after all others  *)
@@ -260,6 +263,9 @@ CycleInEffect(S, d, p) ==
     IF Kind(d) \in {"buffer", "batcher"} THEN 0       \* no cycle time of their own
     ELSE IF Kind(d) = "processor" /\ c.cycmod > 0 THEN c.cyc + (S.part[p].seq % c.cycmod) ELSE c.cyc
 
+(* Sensors on a processor and the condition-monitoring system (defined with the maintainer below) *)
+RECURSIVE OutputSense(_, _, _)
+
 ScheduleFinish(S, d, ct) ==
     LET t == Max(0, ct + S.dev[d].off)
         S1 == [S EXCEPT !.dev[d].off = 0] IN
@@ -288,11 +294,15 @@ FinishCycle(S, d) ==
                 S3 == [S2 EXCEPT !.part = [i \in DOMAIN @ |->
                           IF i \in Range(ls)
                           THEN [@[i] EXCEPT !.value = @ + c.vadd,
-                                            !.quality = IF c.qset > 0 THEN 1 + (S2.part[i].seq % c.qset)
+                                            !.quality = IF c.wear > 0 THEN S2.dev[d].damage + c.wear
+                                                        ELSE IF c.qset > 0 THEN 1 + (S2.part[i].seq % c.qset)
                                                         ELSE IF c.qinc THEN @ + 1 ELSE @]
-                          ELSE @[i]]] IN
-            Record([S3 EXCEPT !.dev[d].off = @ + c.foff,
-                              !.occ = Append(@, <<"prod", d, p, S3.part[p].quality, ValueOf(S3, p), 0, 0>>)], "produced_part", d)
+                          ELSE @[i]],
+                               !.dev[d].damage = @ + c.wear]
+                S4 == [S3 EXCEPT !.dev[d].off = @ + c.foff,
+                                 !.occ = Append(@, <<"prod", d, p, S3.part[p].quality, ValueOf(S3, p), 0, 0>>)] IN
+            \* the output-part sensor's callback was registered after the configuration's own
+            Record(OutputSense(S4, d, p), "produced_part", d)
       [] OTHER ->   \* handler
             SchedulePass([S EXCEPT !.dev[d].out = S.dev[d].inp, !.dev[d].inp = 0], d)
 
@@ -534,9 +544,32 @@ StartOrder(S, arg) ==
 FinishOrder(S, arg) ==
     LET o == OrderOf(arg)
         d == o[1]
-        S1 == Restore(S, d)
+        S0r == Restore(S, d)
+        S1 == IF cfg.devs[d].wear > 0 THEN [S0r EXCEPT !.dev[d].damage = 0] ELSE S0r      \* the repair
         i == CHOOSE j \in DOMAIN S1.mt.active : S1.mt.active[j] = o IN
     ScanOrders([S1 EXCEPT !.mt.util = @ - WoCap(d), !.mt.active = RemoveAt(@, i), !.mt.finish = @ + 1], 1)
+
+(* Sensors.  A measurement appends a copy of the probed value to the kept series (the most recent  *)
+(* scap entries), then calls the on-sense callbacks in registration order: the observer's, then the *)
+(* monitoring system's, which requests a work order (tag x) when the reading reaches the threshold *)
+KeepLast(s, cap) == IF cap = None \/ Len(s) <= cap THEN s ELSE SubSeq(s, Len(s) - cap + 1, Len(s))
+Monitor(S, d, which, v) ==
+    LET S1 == [S EXCEPT !.occ = @ \o << <<"sense", d, 1, which, v, S.now, 0>>, <<"cms", d, 1, which, v, S.now, 0>> >>] IN
+    IF cfg.devs[d].thr > 0 /\ v >= cfg.devs[d].thr THEN CreateOrder(S1, d, "x") ELSE S1
+(* OutputPartSensor: the first finished part and then every (sint+1)-th *)
+OutputSense(S, d, p) ==
+    LET c == cfg.devs[d] IN
+    IF c.sint < 0 \/ S.cnt["produced_part"][d] % (c.sint + 1) # 0 THEN S
+    ELSE LET v == S.part[p].quality IN
+         Monitor([S EXCEPT !.dev[d].sdata = KeepLast(Append(@, v), c.scap), !.dev[d].sn = @ + 1], d, 0, v)
+(* PeriodicSensor on the machine's damage: every pint ticks, whatever the machine is doing *)
+PSensorId(d) == -4000 - d
+PeriodicSense(S, d) ==
+    LET c == cfg.devs[d]
+        v == S.dev[d].damage
+        S1 == [S EXCEPT !.dev[d].pdata = KeepLast(Append(@, v), c.scap), !.dev[d].ptime = KeepLast(Append(@, S.now), c.scap),
+                        !.dev[d].pn = @ + 1] IN
+    SchedArg(Monitor(S1, d, 1, v), S.now + c.pint, PSensorId(d), "psense", 40, d)
 
 (* set_upstream during the run: a holding device that is waiting restarts its waiting time; the  *)
 (* old upstreams forget it; every new upstream appends it to its downstream list and, being told *)
@@ -606,6 +639,7 @@ Dispatch(S, e) ==
            [] e.kind = "sched"   -> SchedTransition(S1, e.arg)
            [] e.kind = "mstart"  -> StartOrder(S1, e.arg)
            [] e.kind = "mfinish" -> FinishOrder(S1, e.arg)
+           [] e.kind = "psense"  -> PeriodicSense(S1, e.arg)
            [] OTHER -> S1
 
 (* System.simulate, first call: initialise every asset in creation order; schedule the script *)
@@ -620,5 +654,9 @@ Initialise(S) ==
                             ELSE SchedArg(T, cfg.script[i].t, -2, "script", cfg.script[i].prio, i), i + 1)
         RECURSIVE sd(_, _)
         sd(T, i) == IF i > Len(cfg.scheds) THEN T ELSE sd(EnterSched(T, i, 1), i + 1)
-    IN sc(sd(go([S EXCEPT !.inited = TRUE], 1), 1), 1)
+        RECURSIVE ps(_, _)
+        ps(T, d) == IF d > N THEN T
+                    ELSE ps(IF Kind(d) = "processor" /\ cfg.devs[d].pint > 0
+                            THEN SchedArg(T, T.now + cfg.devs[d].pint, PSensorId(d), "psense", 40, d) ELSE T, d + 1)
+    IN sc(ps(sd(go([S EXCEPT !.inited = TRUE], 1), 1), 1), 1)
 =============================================================================
